@@ -389,6 +389,28 @@ func C04(run *mon.Run) {
 							run.Violate("C04:remove-verify", "key produced by Remove rejects a valid signature", rep)
 						}
 					}
+					// the minuend in non-affine coordinates: the same removal from the Jacobian form of the
+					// aggregate, and removal in two steps (the intermediate result, itself the output of a
+					// removal, is the minuend of the second step)
+					if jr, e := crypto.RemoveBLSPublicKeys(jacobianForm(aggPk, r), permute(r, B)); e != nil || !bytes.Equal(jr.Encode(), wantA) {
+						run.Violate("C04:remove:jacobian-minuend", fmt.Sprintf("Remove(Agg(A+B) in Jacobian coordinates, B) = %x (err %v), reference Agg(A) = %x", pkEncOrNil(jr), e, wantA), rep)
+					}
+					if len(B) >= 2 {
+						h := 1 + r.IntN(len(B)-1)
+						step1, e1 := crypto.RemoveBLSPublicKeys(aggPk, B[:h])
+						if e1 == nil {
+							step2, e2 := crypto.RemoveBLSPublicKeys(step1, B[h:])
+							run.Eval(2)
+							if e2 != nil || !bytes.Equal(step2.Encode(), wantA) {
+								run.Violate("C04:remove:nested", fmt.Sprintf("Remove(Remove(Agg(A+B), B1), B2) = %x (err %v), reference Agg(A) = %x", pkEncOrNil(step2), e2, wantA), rep)
+							}
+							// ... and aggregating the removed part back gives the original aggregate
+							back, e3 := crypto.AggregateBLSPublicKeys(append([]crypto.PublicKey{step1}, B[:h]...))
+							if e3 != nil || !bytes.Equal(back.Encode(), wantPk) {
+								run.Violate("C04:remove:aggregate-back", fmt.Sprintf("Agg(Remove(Agg(A+B), B1), B1) = %x (err %v), reference Agg(A+B) = %x", pkEncOrNil(back), e3, wantPk), rep)
+							}
+						}
+					}
 					// removing everything gives the identity; removing nothing is a no-op
 					all, e := crypto.RemoveBLSPublicKeys(aggPk, pks)
 					none, e2 := crypto.RemoveBLSPublicKeys(aggPk, nil)
